@@ -87,8 +87,7 @@ func vspecAckType(s message.Type) bool {
 
 // 64-bit bit trick; its contract is assumed (QF_BV lemma in /verif/lemmas, hand-transcribed body)
 //@ func roundUpPowerOfTwo64
-//@   flag bodyhash 6d1b608ad621
-//@   trusted
+//@   flag arith bv64
 //@   pure
 //@   requires 1 <= n && n <= 4611686018427387904
 //@   ensures pow2(result) && result >= n && result < 2*n
